@@ -74,14 +74,14 @@ Definition xpadding_node (o : padopts) (xi : xinfo) : node :=
   Node (n_info nd)
        (fun s => if is_fixed s then let '(l, r) := xpadding_values_fixed o xi in [Placed 0 l 0 (xpadding_csize_fixed o) true false]
                  else n_place nd s)
-       (* Padding.get_cursor_coords: maxvals = () *)
+       (* Padding.get_cursor_coords: maxvals = self._fixed_child_size() (fix ba33666: the size render(()) hands down) *)
        (fun s => if is_fixed s then
                    if negb (i_hascur ci) then CPNone else
-                   let '(l, r) := xpadding_values_fixed o xi in CPAsk 0 fixed_size l 0 None false
+                   let '(l, r) := xpadding_values_fixed o xi in CPAsk 0 (xpadding_csize_fixed o) l 0 None false
                  else n_cursor nd s)
        (* Padding.mouse_event: no bounds when size == () *)
        (fun s col row focus =>
-          if is_fixed s then let '(l, r) := xpadding_values_fixed o xi in Some (Routed 0 fixed_size (col - l) row focus)
+          if is_fixed s then let '(l, r) := xpadding_values_fixed o xi in Some (Routed 0 (xpadding_csize_fixed o) (col - l) row focus)
           else n_route nd s col row focus)
        (* Padding.move_cursor_to_coords: maxcol = self.pack((), True)[0] *)
        (fun s x y =>
@@ -90,15 +90,15 @@ Definition xpadding_node (o : padopts) (xi : xinfo) : node :=
             let '(l, r) := xpadding_values_fixed o xi in
             let maxcol := fst (xpadding_pack o xi) in
             let x1 := if x <? l then l else if maxcol - r <=? x then maxcol - r - 1 else x in
-            MPAsk 0 fixed_size (x1 - l) y None
+            MPAsk 0 (xpadding_csize_fixed o) (x1 - l) y None
           else n_move nd s x y)
-       (* rendered fixed: only width 'pack' around a fixed widget (with a given width render hands (width,) to the
-          child but the other three methods hand it (); see the report), non-negative fixed margins *)
+       (* rendered fixed: width 'pack' around a fixed widget, or a given width (>= 1) around a flow widget, which gets
+          (width,) in all four methods; non-negative fixed margins *)
        (fun s => if is_fixed s then
                    let '(l, r) := xpadding_values_fixed o xi in
                    (0 <=? l) && (0 <=? r) && (0 <=? pa_left o) && (0 <=? pa_right o)
-                   && is_pack (pa_wt o) && x_fixed xi
-                   && (omin (pa_minw o) 1 <=? fst (x_pack xi))
+                   && (if is_given (pa_wt o) then 1 <=? pa_wamt o
+                       else is_pack (pa_wt o) && x_fixed xi && (omin (pa_minw o) 1 <=? fst (x_pack xi)))
                  else n_fits nd s && (let '(l, r) := padding_values o (fst s) in 0 <=? fst s - (l + r))).
 Definition xpadding_info (o : padopts) (xi : xinfo) : xinfo :=
   XInfo (padding_info o (xc xi))
@@ -510,13 +510,14 @@ Definition xnode_of (w : widget) (ki : list xinfo) : node * xinfo :=
       (nd, XInfo (n_info nd) false false (0, 0) (fun s => fst s))
   end.
 
-(* no fixed part anywhere in the tree: no fixed leaf, no 'pack' column, no Overlay with width 'pack' *)
+(* no fixed part anywhere in the tree: no fixed leaf, no 'pack' column, no Overlay with width 'pack', no Padding with a
+   given width (which can be rendered with size ()) *)
 Fixpoint sized_tree (w : widget) : bool :=
   match w with
   | Leaf l => lfw l =? 0
   | Pile items _ => forallb (fun it => sized_tree (snd it)) items
   | Columns items _ _ _ => forallb (fun it => negb (is_cpack (fst (fst it))) && sized_tree (snd it)) items
-  | Padding c _ _ _ _ _ _ _ => sized_tree c
+  | Padding c _ _ wt _ _ _ _ => negb (is_given wt) && sized_tree c     (* a given width makes the Padding a FIXED widget too *)
   | Filler c _ _ _ _ _ _ _ => sized_tree c
   | Frame body hdr ftr _ =>
       sized_tree body && match hdr with Some h => sized_tree h | None => true end
